@@ -24,7 +24,7 @@ def _run(mini, path, args):
 def check_cstring(ctx, FB, crate, fn):
     """reader must return exactly the bytes before the first NUL and consume them plus the NUL, for every length 0..=255"""
     n_cases = 0
-    for n in range(0, 256):
+    for n in range(0, 257):
         toks = _toks(["nz"] * n + ["z"] + ["any"] * EXTRA)
         st = Stream(toks)
         mini = Mini(FB, crate)
